@@ -176,12 +176,16 @@ impl Indexable for ast::Def {
     type Output = ();
     fn index(&self, ctx: &mut IndexCtx) -> Option<Self::Output> {
         let defset_id = ctx.scopes.current_defset_id();
+        // a def is listed under its defset only if both are in the same file: the defset's body may contain an include
+        let listed_in_defset = defset_id.map_or(false, |id| {
+            ctx.symbol_map.defset(id).define_loc.file == ctx.current_file_id()
+        });
 
         let def_id = match self.name() {
             Some(name_value) => {
                 let (name, define_loc) = index_name_value(name_value, ctx)?;
                 let def = Record::new(name, RecordKind::Def, define_loc);
-                ctx.symbol_map.add_record(def, defset_id.is_none())
+                ctx.symbol_map.add_record(def, !listed_in_defset)
             }
             None => {
                 let name = ctx.next_anonymous_def_name();
